@@ -232,6 +232,11 @@ var _ utils.PriorityQueue
 //@ invariant [C01 items-known] old(istype(neighbors, *utils.priorityQueue) && allQ(neighbors.(*utils.priorityQueue).queue)) ==> allQ(neighbors.(*utils.priorityQueue).queue)
 //@ invariant [C01 keeps-one] old(istype(neighbors, *utils.priorityQueue) && neighbors.pay != 0 && hdyn(neighbors.(*utils.priorityQueue).queue) && len(qs(neighbors.(*utils.priorityQueue).queue)) >= 1) && k >= 1 ==> len(qs(neighbors.(*utils.priorityQueue).queue)) >= 1 && hdyn(neighbors.(*utils.priorityQueue).queue)
 
+// heuristic selection: if every item of the input queue is a beam item of the query, so is every item of the queue returned
+// (items taken over from the input, or made here with the true distance of a vertex that is not a tombstone)
+//@ spec srcItem(ix *Hnsw, q math.Vector, it *utils.PriorityQueueItem) bool = it != nil && allocated(it) && istype(it, utils.PriorityQueueItem) && resultSource(ix, q, it)
+//@ spec beamQueue(ix *Hnsw, q math.Vector, pq utils.PriorityQueue) bool = istype(pq, *utils.priorityQueue) && pq.pay != 0 && hdyn(pq.(*utils.priorityQueue).queue) && forall k int :: 0 <= k && k < len(qs(pq.(*utils.priorityQueue).queue)) ==> srcItem(ix, q, qs(pq.(*utils.priorityQueue).queue)[k])
+//@ spec knownQueue(pq utils.PriorityQueue) bool = istype(pq, *utils.priorityQueue) && pq.pay != 0 && allQ(pq.(*utils.priorityQueue).queue)
 //@ func (*index.Hnsw).selectNeighborsHeuristic
 //@ props C02 C01
 //@ safety UNCLAIMED
@@ -239,7 +244,82 @@ var _ utils.PriorityQueue
 //@ requires [C01 true-score] $arg0 == Distance(this.space, query, $arg1.(*hnswVertex).vector)
 //@ requires [C01 not-a-tombstone] $arg1.(*hnswVertex) != nil && $arg1.(*hnswVertex).deleted != 1
 //@ end
+//@ assume [the queue predicate qP is read as: the item was made during this call, or it is a beam item of the query at entry] forall it *utils.PriorityQueueItem! :: qP(it) == (fresh(it) || old(resultSource(this, query, it)))
+//@ at call priorityQueue).Reverse
+//@ requires [C01 items-known] old(beamQueue(this, query, neighbors)) ==> allQ($arg0.queue)
+//@ end
+//@ at call priorityQueue).Pop
+//@ requires [C01 items-known] old(beamQueue(this, query, neighbors)) ==> allQ($arg0.queue)
+//@ end
+//@ at call priorityQueue).Push
+//@ requires [C01 items-known] old(beamQueue(this, query, neighbors)) ==> allQ($arg0.queue) && qP($arg1)
+//@ end
+//@ ensures [C01 selected-are-beam-items] old(beamQueue(this, query, neighbors)) ==> beamQueue(this, query, ret)
 //@ modifies cells[utils.minPriorityQueue], cells[utils.maxPriorityQueue], mem[*utils.PriorityQueueItem]
+//@ loop 1
+//@ invariant [C01 queues-known-0] old(beamQueue(this, query, neighbors)) ==> knownQueue(candidateVertices)
+//@ invariant [C01 queues-known-1] old(beamQueue(this, query, neighbors)) ==> knownQueue(neighbors)
+//@ invariant [C01 queues-known-7] old(beamQueue(this, query, neighbors)) ==> (qs(neighbors.(*utils.priorityQueue).queue).ref == 0 ==> len(qs(neighbors.(*utils.priorityQueue).queue)) == 0) && (qs(candidateVertices.(*utils.priorityQueue).queue).ref == 0 ==> len(qs(candidateVertices.(*utils.priorityQueue).queue)) == 0)
+//@ invariant [C01 queues-known-2] old(beamQueue(this, query, neighbors)) ==> candidateVertices.(*utils.priorityQueue).queue.pay != neighbors.(*utils.priorityQueue).queue.pay
+//@ invariant [C01 queues-known-3] old(beamQueue(this, query, neighbors)) ==> candidateVertices.(*utils.priorityQueue) != neighbors.(*utils.priorityQueue)
+//@ invariant [C01 queues-known-4] old(beamQueue(this, query, neighbors)) ==> (qs(candidateVertices.(*utils.priorityQueue).queue).ref == 0 || allocated(qs(candidateVertices.(*utils.priorityQueue).queue)))
+//@ invariant [C01 queues-known-5] old(beamQueue(this, query, neighbors)) ==> (qs(neighbors.(*utils.priorityQueue).queue).ref == 0 || allocated(qs(neighbors.(*utils.priorityQueue).queue)))
+//@ invariant [C01 queues-known-6] old(beamQueue(this, query, neighbors)) ==> (qs(neighbors.(*utils.priorityQueue).queue).ref == 0 || qs(candidateVertices.(*utils.priorityQueue).queue).ref != qs(neighbors.(*utils.priorityQueue).queue).ref)
+//@ invariant [C01 made-here] old(beamQueue(this, query, neighbors)) ==> forall it *utils.PriorityQueueItem :: fresh(it) ==> resultSource(this, query, it)
+//@ loop 2
+//@ invariant [C01 queues-known-0] old(beamQueue(this, query, neighbors)) ==> knownQueue(candidateVertices)
+//@ invariant [C01 queues-known-1] old(beamQueue(this, query, neighbors)) ==> knownQueue(neighbors)
+//@ invariant [C01 queues-known-7] old(beamQueue(this, query, neighbors)) ==> (qs(neighbors.(*utils.priorityQueue).queue).ref == 0 ==> len(qs(neighbors.(*utils.priorityQueue).queue)) == 0) && (qs(candidateVertices.(*utils.priorityQueue).queue).ref == 0 ==> len(qs(candidateVertices.(*utils.priorityQueue).queue)) == 0)
+//@ invariant [C01 queues-known-2] old(beamQueue(this, query, neighbors)) ==> candidateVertices.(*utils.priorityQueue).queue.pay != neighbors.(*utils.priorityQueue).queue.pay
+//@ invariant [C01 queues-known-3] old(beamQueue(this, query, neighbors)) ==> candidateVertices.(*utils.priorityQueue) != neighbors.(*utils.priorityQueue)
+//@ invariant [C01 queues-known-4] old(beamQueue(this, query, neighbors)) ==> (qs(candidateVertices.(*utils.priorityQueue).queue).ref == 0 || allocated(qs(candidateVertices.(*utils.priorityQueue).queue)))
+//@ invariant [C01 queues-known-5] old(beamQueue(this, query, neighbors)) ==> (qs(neighbors.(*utils.priorityQueue).queue).ref == 0 || allocated(qs(neighbors.(*utils.priorityQueue).queue)))
+//@ invariant [C01 queues-known-6] old(beamQueue(this, query, neighbors)) ==> (qs(neighbors.(*utils.priorityQueue).queue).ref == 0 || qs(candidateVertices.(*utils.priorityQueue).queue).ref != qs(neighbors.(*utils.priorityQueue).queue).ref)
+//@ invariant [C01 made-here] old(beamQueue(this, query, neighbors)) ==> forall it *utils.PriorityQueueItem :: fresh(it) ==> resultSource(this, query, it)
+//@ loop 3
+//@ invariant [C01 queues-known-0] old(beamQueue(this, query, neighbors)) ==> knownQueue(candidateVertices)
+//@ invariant [C01 queues-known-1] old(beamQueue(this, query, neighbors)) ==> knownQueue(neighbors)
+//@ invariant [C01 queues-known-7] old(beamQueue(this, query, neighbors)) ==> (qs(neighbors.(*utils.priorityQueue).queue).ref == 0 ==> len(qs(neighbors.(*utils.priorityQueue).queue)) == 0) && (qs(candidateVertices.(*utils.priorityQueue).queue).ref == 0 ==> len(qs(candidateVertices.(*utils.priorityQueue).queue)) == 0)
+//@ invariant [C01 queues-known-2] old(beamQueue(this, query, neighbors)) ==> candidateVertices.(*utils.priorityQueue).queue.pay != neighbors.(*utils.priorityQueue).queue.pay
+//@ invariant [C01 queues-known-3] old(beamQueue(this, query, neighbors)) ==> candidateVertices.(*utils.priorityQueue) != neighbors.(*utils.priorityQueue)
+//@ invariant [C01 queues-known-4] old(beamQueue(this, query, neighbors)) ==> (qs(candidateVertices.(*utils.priorityQueue).queue).ref == 0 || allocated(qs(candidateVertices.(*utils.priorityQueue).queue)))
+//@ invariant [C01 queues-known-5] old(beamQueue(this, query, neighbors)) ==> (qs(neighbors.(*utils.priorityQueue).queue).ref == 0 || allocated(qs(neighbors.(*utils.priorityQueue).queue)))
+//@ invariant [C01 queues-known-6] old(beamQueue(this, query, neighbors)) ==> (qs(neighbors.(*utils.priorityQueue).queue).ref == 0 || qs(candidateVertices.(*utils.priorityQueue).queue).ref != qs(neighbors.(*utils.priorityQueue).queue).ref)
+//@ invariant [C01 made-here] old(beamQueue(this, query, neighbors)) ==> forall it *utils.PriorityQueueItem :: fresh(it) ==> resultSource(this, query, it)
+//@ loop 4
+//@ invariant [C01 queues-known-0] old(beamQueue(this, query, neighbors)) ==> knownQueue(candidateVertices)
+//@ invariant [C01 queues-known-1] old(beamQueue(this, query, neighbors)) ==> knownQueue(neighbors)
+//@ invariant [C01 queues-known-7] old(beamQueue(this, query, neighbors)) ==> (qs(neighbors.(*utils.priorityQueue).queue).ref == 0 ==> len(qs(neighbors.(*utils.priorityQueue).queue)) == 0) && (qs(candidateVertices.(*utils.priorityQueue).queue).ref == 0 ==> len(qs(candidateVertices.(*utils.priorityQueue).queue)) == 0)
+//@ invariant [C01 queues-known-2] old(beamQueue(this, query, neighbors)) ==> candidateVertices.(*utils.priorityQueue).queue.pay != neighbors.(*utils.priorityQueue).queue.pay
+//@ invariant [C01 queues-known-3] old(beamQueue(this, query, neighbors)) ==> candidateVertices.(*utils.priorityQueue) != neighbors.(*utils.priorityQueue)
+//@ invariant [C01 queues-known-4] old(beamQueue(this, query, neighbors)) ==> (qs(candidateVertices.(*utils.priorityQueue).queue).ref == 0 || allocated(qs(candidateVertices.(*utils.priorityQueue).queue)))
+//@ invariant [C01 queues-known-5] old(beamQueue(this, query, neighbors)) ==> (qs(neighbors.(*utils.priorityQueue).queue).ref == 0 || allocated(qs(neighbors.(*utils.priorityQueue).queue)))
+//@ invariant [C01 queues-known-6] old(beamQueue(this, query, neighbors)) ==> (qs(neighbors.(*utils.priorityQueue).queue).ref == 0 || qs(candidateVertices.(*utils.priorityQueue).queue).ref != qs(neighbors.(*utils.priorityQueue).queue).ref)
+//@ invariant [C01 result-known-0] old(beamQueue(this, query, neighbors)) ==> knownQueue(result)
+//@ invariant [C01 result-known-1] old(beamQueue(this, query, neighbors)) ==> isMax(result.(*utils.priorityQueue).queue)
+//@ invariant [C01 result-known-2] old(beamQueue(this, query, neighbors)) ==> result.(*utils.priorityQueue).queue.pay != neighbors.(*utils.priorityQueue).queue.pay
+//@ invariant [C01 result-known-3] old(beamQueue(this, query, neighbors)) ==> result.(*utils.priorityQueue).queue.pay != candidateVertices.(*utils.priorityQueue).queue.pay
+//@ invariant [C01 result-known-4] old(beamQueue(this, query, neighbors)) ==> (qs(result.(*utils.priorityQueue).queue).ref == 0 || allocated(qs(result.(*utils.priorityQueue).queue)))
+//@ invariant [C01 result-known-5] old(beamQueue(this, query, neighbors)) ==> (qs(candidateVertices.(*utils.priorityQueue).queue).ref == 0 || qs(result.(*utils.priorityQueue).queue).ref != qs(candidateVertices.(*utils.priorityQueue).queue).ref)
+//@ invariant [C01 result-known-6] old(beamQueue(this, query, neighbors)) ==> (qs(neighbors.(*utils.priorityQueue).queue).ref == 0 || qs(result.(*utils.priorityQueue).queue).ref != qs(neighbors.(*utils.priorityQueue).queue).ref)
+//@ invariant [C01 made-here] old(beamQueue(this, query, neighbors)) ==> forall it *utils.PriorityQueueItem :: fresh(it) ==> resultSource(this, query, it)
+//@ loop 5
+//@ invariant [C01 queues-known-0] old(beamQueue(this, query, neighbors)) ==> knownQueue(candidateVertices)
+//@ invariant [C01 queues-known-1] old(beamQueue(this, query, neighbors)) ==> knownQueue(neighbors)
+//@ invariant [C01 queues-known-7] old(beamQueue(this, query, neighbors)) ==> (qs(neighbors.(*utils.priorityQueue).queue).ref == 0 ==> len(qs(neighbors.(*utils.priorityQueue).queue)) == 0) && (qs(candidateVertices.(*utils.priorityQueue).queue).ref == 0 ==> len(qs(candidateVertices.(*utils.priorityQueue).queue)) == 0)
+//@ invariant [C01 queues-known-2] old(beamQueue(this, query, neighbors)) ==> candidateVertices.(*utils.priorityQueue).queue.pay != neighbors.(*utils.priorityQueue).queue.pay
+//@ invariant [C01 queues-known-3] old(beamQueue(this, query, neighbors)) ==> candidateVertices.(*utils.priorityQueue) != neighbors.(*utils.priorityQueue)
+//@ invariant [C01 queues-known-4] old(beamQueue(this, query, neighbors)) ==> (qs(candidateVertices.(*utils.priorityQueue).queue).ref == 0 || allocated(qs(candidateVertices.(*utils.priorityQueue).queue)))
+//@ invariant [C01 queues-known-5] old(beamQueue(this, query, neighbors)) ==> (qs(neighbors.(*utils.priorityQueue).queue).ref == 0 || allocated(qs(neighbors.(*utils.priorityQueue).queue)))
+//@ invariant [C01 queues-known-6] old(beamQueue(this, query, neighbors)) ==> (qs(neighbors.(*utils.priorityQueue).queue).ref == 0 || qs(candidateVertices.(*utils.priorityQueue).queue).ref != qs(neighbors.(*utils.priorityQueue).queue).ref)
+//@ invariant [C01 result-known-0] old(beamQueue(this, query, neighbors)) ==> knownQueue(result)
+//@ invariant [C01 result-known-1] old(beamQueue(this, query, neighbors)) ==> isMax(result.(*utils.priorityQueue).queue)
+//@ invariant [C01 result-known-2] old(beamQueue(this, query, neighbors)) ==> result.(*utils.priorityQueue).queue.pay != neighbors.(*utils.priorityQueue).queue.pay
+//@ invariant [C01 result-known-3] old(beamQueue(this, query, neighbors)) ==> result.(*utils.priorityQueue).queue.pay != candidateVertices.(*utils.priorityQueue).queue.pay
+//@ invariant [C01 result-known-4] old(beamQueue(this, query, neighbors)) ==> (qs(result.(*utils.priorityQueue).queue).ref == 0 || allocated(qs(result.(*utils.priorityQueue).queue)))
+//@ invariant [C01 result-known-5] old(beamQueue(this, query, neighbors)) ==> (qs(candidateVertices.(*utils.priorityQueue).queue).ref == 0 || qs(result.(*utils.priorityQueue).queue).ref != qs(candidateVertices.(*utils.priorityQueue).queue).ref)
+//@ invariant [C01 result-known-6] old(beamQueue(this, query, neighbors)) ==> (qs(neighbors.(*utils.priorityQueue).queue).ref == 0 || qs(result.(*utils.priorityQueue).queue).ref != qs(neighbors.(*utils.priorityQueue).queue).ref)
+//@ invariant [C01 made-here] old(beamQueue(this, query, neighbors)) ==> forall it *utils.PriorityQueueItem :: fresh(it) ==> resultSource(this, query, it)
 
 //@ func (*index.Hnsw).pruneNeighbors
 //@ props C02 C01
